@@ -119,15 +119,6 @@ def apply(F, ob, cfg):
     K.eq_digest(F, ob, "input_shape.unchanged", K.digest(s), d_s)
     K.eq_digest(F, ob, "transform.unchanged", K.digest(t), d_t)
     ob.true("input_shape.same_array", s.points is pts_before)
-    # structural buffers are not shared with the input
-    for attr in ("trilist", "colours"):
-        if hasattr(s, attr):
-            ob.true("not_shared." + attr, getattr(r, attr) is not getattr(s, attr))
-    if hasattr(s, "adjacency_matrix"):
-        ob.true("not_shared.adjacency", r.adjacency_matrix is not s.adjacency_matrix)
-    if hasattr(s, "_labels_to_masks"):
-        for l in s.labels:
-            ob.true("not_shared.mask[%s]" % l, r._labels_to_masks[l] is not s._labels_to_masks[l])
 
 
 def apply_dtype(F, ob, cfg):
